@@ -502,14 +502,17 @@ def parse_asm_bytes_directive(directive):
         return ()
 
 def parse_asm_data_directive(snapshot, address, directive, advance=True):
-    a, sep, values = directive[5:].rpartition(':')
+    spec = partition_unquoted(directive[5:], ';')[0]
+    a, sep, values = partition_unquoted(spec, ':')
     if sep:
         addr = parse_int(a)
         if addr is None:
-            return address
+            if advance:
+                return address
+            return address, ()
     else:
-        addr = address
-    operation = '{} {}'.format(directive[:4], partition_unquoted(values, ';')[0])
+        addr, values = address, spec
+    operation = '{} {}'.format(directive[:4], values)
     data = set_bytes(snapshot, Z80_ASSEMBLER, addr, operation)
     if advance:
         return addr + len(data)
